@@ -34,6 +34,31 @@ CHECKS = {
              "executed on TLC's pre-states and judged by Observe.tla.",
         technique="TLA+ model checked by TLC + four-step replay judged by Observe.tla",
         ref="5 C06", note=RUN_NOTE),
+    "C03": dict(
+        text="Rewrite.tla models the copy-through rewriter with its byte cursor and write cache; TLC checks that erasing the tokens "
+             "gives back the input for every content/insertion-point/cache-capacity combination; every enumerated case and the "
+             "statement, hostile and corpus inputs are executed with a byte-level monitor (after minus inserted tokens = before).",
+        technique="TLA+ rewriter model checked by TLC + enumerated cases replayed with a pure-insertion monitor on every edit",
+        ref="5 C03", note=STMT_NOTE),
+    "C09": dict(
+        text="LogStmt.tla (with the log crate's grammar transcribed as Accepts/CarriedRef) is checked by TLC over the compile-safe "
+             "feature space; sampled cases become one function each in a generated crate that is compiled and run before and after "
+             "the edit; records are compared per statement.",
+        technique="TLA+ feature-space model checked by TLC + compile-and-run differential of generated programs",
+        ref="5 C09", note=STMT_NOTE + " rustc and log 0.4.22 (feature kv) from the offline cargo cache."),
+    "C15": dict(
+        text="Scope.tla defines InScope and the path-resolution rules; TLC enumerates layouts x extension lists x source_dir spellings x "
+             "invocations; each is materialised with real directories and symlinks and executed; scanned/modified sets and the lock "
+             "location are compared.",
+        technique="TLA+ scope model enumerated by TLC + one real directory layout per enumerated case",
+        ref="5 C15", note=STMT_NOTE),
+    "C17": dict(
+        level="exploration",
+        text="Hostile.tla enumerates every short sequence over an alphabet of tool-breaking fragments; each is a file run through both "
+             "modes with termination and pure-insertion monitors, together with corpora, statement families, the u32 boundary and large "
+             "inputs. Exploration guided by a model, not a decision over all byte strings.",
+        technique="TLA+-enumerated hostile inputs + corpora with termination monitors",
+        ref="5 C17 and 6", note=STMT_NOTE),
     "C10": dict(
         text="LogStmt.tla gives every statement feature record its required outcome and reference place and TLC checks the "
              "round-trip/acceptance invariants over the enumerated space; every enumerated record (head x target x key-values x "
